@@ -33,8 +33,12 @@ Inductive mval :=
 | MTup0
 | MErrV (e : err)                 (* a value of type Error<E> *)
 | MUninit                         (* a MaybeUninit slot that has not been written *)
+| MOpt (A : Type) (o : option A) (f : A -> mval)             (* a symbolic Option: None, or Some (f a) *)
+| MOutS (T : Type) (o : out T) (f : datum T -> mval)        (* a symbolic Output: Err e, Ok(None), Ok(Some (f d)) *)
 | MFun (f : Z -> option (Z * pay))   (* an external function of a time (a History): time stamp and payload of the datum it returns *)
 | MVariant (n : string).          (* a field-less enum variant of a private enum *)
+Arguments MOpt {A} o f.
+Arguments MOutS {T} o f.
 
 Inductive pat :=
 | PWild | PVar (x : string)
@@ -157,38 +161,84 @@ Fixpoint lval_set (l : lval) (v : mval) (en : env) : option env :=
       end
   end.
 
-Fixpoint pmatch (p : pat) (v : mval) {struct p} : option env :=
+(* ------------------------------------------------------------------------------------------------------------------
+   Evaluation produces a decision tree: a leaf is an outcome; [TRes r k] asks for the result of a value-layer operation
+   that may panic (unit mismatch, i64 overflow) and continues with [k] on success; [TIf b x y] branches on a boolean
+   (a comparison of time stamps or floats, a boolean payload).  [flatten] turns the tree into the ordinary result: it
+   scrutinises [r] / [b] exactly where the tree says.  Writing the evaluator against the tree keeps its own control
+   flow independent of operation results, so that running it on a state whose leaves are variables never gets stuck
+   (symbolic execution by computation). *)
+Inductive tree (X : Type) : Type :=
+| Leaf (x : X)
+| TRes (A : Type) (r : res A) (k : A -> tree X)
+| TIf (b : bool) (x y : tree X)
+| TAsk (A : Type) (o : option A) (ks : A -> tree X) (kn : tree X)    (* the answer of an external function *)
+| TPay (p : pay) (k : val -> tree X)
+| TOut (T : Type) (o : out T) (ke : err -> tree X) (kn : tree X) (ks : datum T -> tree X).   (* the category of an input *)                               (* the shape of a payload *)
+Arguments Leaf {X} x.
+Arguments TRes {X A} r k.
+Arguments TIf {X} b x y.
+Arguments TAsk {X A} o ks kn.
+Arguments TPay {X} p k.
+Arguments TOut {X T} o ke kn ks.
+
+Fixpoint tmap {X Y} (f : X -> tree Y) (t : tree X) : tree Y :=
+  match t with
+  | Leaf x => f x
+  | TRes r k => TRes r (fun a => tmap f (k a))
+  | TIf b x y => TIf b (tmap f x) (tmap f y)
+  | TAsk o ks kn => TAsk o (fun a => tmap f (ks a)) (tmap f kn)
+  | TPay p k => TPay p (fun v => tmap f (k v))
+  | TOut o ke kn ks => TOut o (fun e => tmap f (ke e)) (tmap f kn) (fun d => tmap f (ks d))
+  end.
+(* matching a pattern against a value: a symbolic Option / Output forks the tree instead of blocking the evaluation *)
+Fixpoint pmatch (p : pat) (v : mval) {struct p} : tree (option env) :=
   match p with
-  | PWild => Some []
-  | PVar x => Some [(x, v)]
-  | POk q => match v with MOk w => pmatch q w | _ => None end
-  | PErr q => match v with MErr w => pmatch q w | _ => None end
-  | PSome q => match v with MSome w => pmatch q w | _ => None end
-  | PNone => match v with MNone => Some [] | _ => None end
-  | PUnit => match v with MTup0 => Some [] | _ => None end
-  | PVariant n => match v with MVariant m => if String.eqb n m then Some [] else None | _ => None end
-  | PPD d => match v with MV (VPD d') => if pd_eqb d d' then Some [] else None | _ => None end
-  | PBool b => match v with MV (VB b') => if Bool.eqb b b' then Some [] else None | _ => None end
-  | PInt z => match v with MV (VI z') => if z =? z' then Some [] else None | _ => None end
-  | PCmd k q => match v with MV (VC x) => if pd_eqb k (c_kind x) then pmatch q (MV (VF (c_val x))) else None | _ => None end
-  | PUnitC a b => match v with MV (VU u) => if ueqb u (unew c a b) then Some [] else None | _ => None end
+  | PWild => Leaf (Some [])
+  | PVar x => Leaf (Some [(x, v)])
+  | POk q => match v with
+             | MOk w => pmatch q w
+             | MOutS o f => TOut o (fun _ => Leaf None) (pmatch q MNone) (fun d => pmatch q (MSome (f d)))
+             | _ => Leaf None end
+  | PErr q => match v with
+              | MErr w => pmatch q w
+              | MOutS o f => TOut o (fun e => pmatch q (MErrV e)) (Leaf None) (fun _ => Leaf None)
+              | _ => Leaf None end
+  | PSome q => match v with
+               | MSome w => pmatch q w
+               | MOpt o f => TAsk o (fun a => pmatch q (f a)) (Leaf None)
+               | _ => Leaf None end
+  | PNone => match v with
+             | MNone => Leaf (Some [])
+             | MOpt o f => TAsk o (fun _ => Leaf None) (Leaf (Some []))
+             | _ => Leaf None end
+  | PUnit => match v with MTup0 => Leaf (Some []) | _ => Leaf None end
+  | PVariant n => match v with MVariant m => if String.eqb n m then Leaf (Some []) else Leaf None | _ => Leaf None end
+  | PPD d => match v with MV (VPD d') => if pd_eqb d d' then Leaf (Some []) else Leaf None | _ => Leaf None end
+  | PBool b => match v with MV (VB b') => if Bool.eqb b b' then Leaf (Some []) else Leaf None | _ => Leaf None end
+  | PInt z => match v with MV (VI z') => if z =? z' then Leaf (Some []) else Leaf None | _ => Leaf None end
+  | PCmd k q => match v with MV (VC x) => if pd_eqb k (c_kind x) then pmatch q (MV (VF (c_val x))) else Leaf None | _ => Leaf None end
+  | PUnitC a b => match v with MV (VU u) => if ueqb u (unew c a b) then Leaf (Some []) else Leaf None | _ => Leaf None end
   | PArr ps =>
       match v with
       | MArr vs =>
-          (fix go (ps : list pat) (vs : list mval) {struct ps} : option env :=
+          (fix go (ps : list pat) (vs : list mval) {struct ps} : tree (option env) :=
              match ps, vs with
-             | [], [] => Some []
+             | [], [] => Leaf (Some [])
              | q :: ps', w :: vs' =>
-                 match pmatch q w, go ps' vs' with Some b1, Some b2 => Some (b2 ++ b1) | _, _ => None end
-             | _, _ => None
+                 tmap (fun r1 => match r1 with
+                                 | Some b1 => tmap (fun r2 => match r2 with Some b2 => Leaf (Some (b2 ++ b1)) | None => Leaf None end) (go ps' vs')
+                                 | None => Leaf None
+                                 end) (pmatch q w)
+             | _, _ => Leaf None
              end) ps vs
-      | _ => None
+      | _ => Leaf None
       end
   | POr ps =>
-      (fix go (ps : list pat) {struct ps} : option env :=
+      (fix go (ps : list pat) {struct ps} : tree (option env) :=
          match ps with
-         | [] => None
-         | q :: ps' => match pmatch q v with Some b => Some b | None => go ps' end
+         | [] => Leaf None
+         | q :: ps' => tmap (fun r => match r with Some b => Leaf (Some b) | None => go ps' end) (pmatch q v)
          end) ps
   end.
 
@@ -219,33 +269,6 @@ Definition into_val (m : mval) : option mval :=
   | _ => None
   end.
 
-(* ------------------------------------------------------------------------------------------------------------------
-   Evaluation produces a decision tree: a leaf is an outcome; [TRes r k] asks for the result of a value-layer operation
-   that may panic (unit mismatch, i64 overflow) and continues with [k] on success; [TIf b x y] branches on a boolean
-   (a comparison of time stamps or floats, a boolean payload).  [flatten] turns the tree into the ordinary result: it
-   scrutinises [r] / [b] exactly where the tree says.  Writing the evaluator against the tree keeps its own control
-   flow independent of operation results, so that running it on a state whose leaves are variables never gets stuck
-   (symbolic execution by computation). *)
-Inductive tree (X : Type) : Type :=
-| Leaf (x : X)
-| TRes (A : Type) (r : res A) (k : A -> tree X)
-| TIf (b : bool) (x y : tree X)
-| TAsk (A : Type) (o : option A) (ks : A -> tree X) (kn : tree X)    (* the answer of an external function *)
-| TPay (p : pay) (k : val -> tree X).                               (* the shape of a payload *)
-Arguments Leaf {X} x.
-Arguments TRes {X A} r k.
-Arguments TIf {X} b x y.
-Arguments TAsk {X A} o ks kn.
-Arguments TPay {X} p k.
-
-Fixpoint tmap {X Y} (f : X -> tree Y) (t : tree X) : tree Y :=
-  match t with
-  | Leaf x => f x
-  | TRes r k => TRes r (fun a => tmap f (k a))
-  | TIf b x y => TIf b (tmap f x) (tmap f y)
-  | TAsk o ks kn => TAsk o (fun a => tmap f (ks a)) (tmap f kn)
-  | TPay p k => TPay p (fun v => tmap f (k v))
-  end.
 (* sequencing on outcomes: only a normal completion continues *)
 Definition tbind (t : tree outcome) (k : mval -> env -> tree outcome) : tree outcome :=
   tmap (fun o => match o with ONorm v en => k v en | o' => Leaf o' end) t.
@@ -315,10 +338,10 @@ Fixpoint eval_arms (v : mval) (en1 : env) (l : list (pat * mexpr)) {struct l} : 
   match l with
   | [] => Leaf OType
   | (p, body) :: r =>
-      match pmatch p v with
-      | Some bs => do (w, en2) <- ev body (bs ++ en1); Leaf (ONorm w (skipn (List.length bs) en2))
-      | None => eval_arms v en1 r
-      end
+      tmap (fun m => match m with
+                     | Some bs => do (w, en2) <- ev body (bs ++ en1); Leaf (ONorm w (skipn (List.length bs) en2))
+                     | None => eval_arms v en1 r
+                     end) (pmatch p v)
   end.
 End Helpers.
 
@@ -458,13 +481,23 @@ Fixpoint eval (e : mexpr) (en : env) {struct e} : tree outcome :=
   | EInto a => do (v, en1) <- eval a en; opt_leaf (into_val v) en1
   | EIsErr a =>
       do (v, en1) <- eval a en;
-      match v with MErr _ => ret1 (MV (VB true)) en1 | MOk _ => ret1 (MV (VB false)) en1 | _ => Leaf OType end
+      match v with
+      | MErr _ => ret1 (MV (VB true)) en1 | MOk _ => ret1 (MV (VB false)) en1
+      | MOutS o _ => TOut o (fun _ => ret1 (MV (VB true)) en1) (ret1 (MV (VB false)) en1) (fun _ => ret1 (MV (VB false)) en1)
+      | _ => Leaf OType end
   | EUnwrap a =>
       do (v, en1) <- eval a en;
-      match v with MSome w | MOk w => ret1 w en1 | MNone | MErr _ => Leaf OPanic | _ => Leaf OType end
+      match v with
+      | MSome w | MOk w => ret1 w en1 | MNone | MErr _ => Leaf OPanic
+      | MOpt o f => TAsk o (fun a => ret1 (f a) en1) (Leaf OPanic)
+      | MOutS o f => TOut o (fun _ => Leaf OPanic) (ret1 MNone en1) (fun d => ret1 (MSome (f d)) en1)
+      | _ => Leaf OType end
   | ETry a =>
       do (v, en1) <- eval a en;
-      match v with MOk w => ret1 w en1 | MErr w => Leaf (ORet (MErr w) en1) | _ => Leaf OType end
+      match v with
+      | MOk w => ret1 w en1 | MErr w => Leaf (ORet (MErr w) en1)
+      | MOutS o f => TOut o (fun e => Leaf (ORet (MErr (MErrV e)) en1)) (ret1 MNone en1) (fun d => ret1 (MSome (f d)) en1)
+      | _ => Leaf OType end
   | ECmp o a b =>
       do (x, en1) <- eval a en;
       do (y, en2) <- eval b en1;
@@ -484,10 +517,10 @@ Fixpoint eval (e : mexpr) (en : env) {struct e} : tree outcome :=
       end
   | ELet p a body =>
       do (v, en1) <- eval a en;
-      match pmatch p v with
-      | Some bs => do (w, en2) <- eval body (bs ++ en1); ret1 w (skipn (List.length bs) en2)
-      | None => Leaf OType
-      end
+      tmap (fun m => match m with
+                     | Some bs => do (w, en2) <- eval body (bs ++ en1); ret1 w (skipn (List.length bs) en2)
+                     | None => Leaf OType
+                     end) (pmatch p v)
   | ESeq a b => do (v, en1) <- eval a en; eval b en1
   | EAssign l a =>
       do (v, en1) <- eval a en;
@@ -542,15 +575,28 @@ Fixpoint flatten {X} (t : tree X) : res X :=
       | PF x => flatten (k (VF x)) | PQ q => flatten (k (VQ q)) | PB b => flatten (k (VB b))
       | PS s => flatten (k (VS s)) | PC x => flatten (k (VC x))
       end
+  | TOut o ke kn ks => match o with OErr e => flatten (ke e) | ONone => flatten kn | OSome d => flatten (ks d) end
   end.
 Definition flatten_rv (t : tree (@rv F)) : @rv F := match flatten t with Ok r => r | Panic => RPanic end.
+
+(* symbolic containers written out by cases (for comparing final results) *)
+Fixpoint canon (m : mval) : mval :=
+  match m with
+  | MOpt o f => match o with Some a => MSome (canon (f a)) | None => MNone end
+  | MOutS o f => match o with OErr e => MErr (MErrV e) | ONone => MOk MNone | OSome d => MOk (MSome (canon (f d))) end
+  | MOk x => MOk (canon x) | MErr x => MErr (canon x) | MSome x => MSome (canon x)
+  | MRec fs => MRec ((fix go (l : list (string * mval)) : list (string * mval) :=
+                        match l with [] => [] | (k, v) :: r => (k, canon v) :: go r end) fs)
+  | MArr l => MArr ((fix go (l : list mval) : list mval := match l with [] => [] | v :: r => canon v :: go r end) l)
+  | x => x
+  end.
 
 (* a function body run on a receiver [self] (a struct) and the values its getters return at this moment.
    None: the translated program is ill-typed for these arguments (never, for the current source and embedded
    model states: the generated theorems show it). *)
 Definition finish (n_inputs : nat) (o : outcome) : option (res (mval * mval)) :=
   let fin (v : mval) (en : env) :=
-    match lookup "self" (skipn (List.length en - S n_inputs) en) with Some s => Some (Ok (s, v)) | None => None end in
+    match lookup "self" (skipn (List.length en - S n_inputs) en) with Some s => Some (Ok (canon s, canon v)) | None => None end in
   match o with
   | ONorm v en => fin v en
   | ORet v en => fin v en
@@ -565,3 +611,5 @@ Definition run_fn (body : mexpr) (self : mval) (inputs : env) : option (res (mva
   end.
 
 End MiniRust.
+Arguments MOpt {F A} o f.
+Arguments MOutS {F T} o f.
